@@ -78,9 +78,13 @@ impl<S: BuildHasher + Clone + 'static> LFUPolicy<S> {
         }
 
         // block until the Processor thread returns.
+        #[cfg(transparencies_stretto_verif)]
+        crate::verif::yield_point("block:pol_stop");
         self.stop_tx
             .send(())
             .map_err(|e| CacheError::SendError(format!("{}", e)))?;
+        #[cfg(transparencies_stretto_verif)]
+        crate::verif::yield_point("unblock:pol_stop");
         self.is_closed.store(true, Ordering::SeqCst);
         Ok(())
     }
@@ -108,6 +112,11 @@ impl<S: BuildHasher + Clone + 'static> PolicyProcessor<S> {
 
     #[inline]
     fn spawn(self) -> JoinHandle<()> {
+        #[cfg(transparencies_stretto_verif)]
+        if crate::verif::park_requested() {
+            crate::verif::park(Box::new(self));
+            return spawn(|| ());
+        }
         spawn(move || loop {
             select! {
                 recv(self.items_rx) -> items => self.handle_items(items),
@@ -142,3 +151,34 @@ unsafe impl<S: BuildHasher + Clone + 'static> Send for PolicyProcessor<S> {}
 unsafe impl<S: BuildHasher + Clone + 'static> Sync for PolicyProcessor<S> {}
 
 impl_policy!(LFUPolicy);
+
+#[cfg(transparencies_stretto_verif)]
+impl<S: BuildHasher + Clone + 'static> PolicyProcessor<S> {
+    /// One iteration of the loop in `spawn`, with the `select!` arm chosen by the caller.
+    pub(crate) fn verif_step(&mut self, b: crate::verif::Branch) -> crate::verif::Stepped {
+        use crate::verif::{Branch, Stepped};
+        use crossbeam_channel::TryRecvError;
+        match b {
+            Branch::Insert => match self.items_rx.try_recv() {
+                Ok(items) => {
+                    self.handle_items(Ok(items));
+                    Stepped::Done
+                }
+                Err(TryRecvError::Empty) => Stepped::NotReady,
+                Err(TryRecvError::Disconnected) => {
+                    self.handle_items(Err(RecvError));
+                    Stepped::Done
+                }
+            },
+            Branch::Stop => match self.stop_rx.try_recv() {
+                Ok(_) | Err(TryRecvError::Disconnected) => Stepped::Exited,
+                Err(TryRecvError::Empty) => Stepped::NotReady,
+            },
+            _ => Stepped::NotReady,
+        }
+    }
+
+    pub(crate) fn verif_spawn(self) -> JoinHandle<()> {
+        self.spawn()
+    }
+}
